@@ -27,6 +27,29 @@ def main() -> int:
     common.setup_repo_path()
     mod = importlib.import_module(f"props.{a.pid.lower()}")
     chk = common.Check(a.pid, a.tier, seed)
+
+    # fail closed on a run that never ends (the code under test blocking a thread the harness waits for): after a limit far above
+    # any measured run time (quick <= 6 min, thorough <= 45 min on this machine) every thread's stack is written to stderr and
+    # the run is reported as not completed.  VERIF_MAX_WALL (seconds) overrides the limit.
+    limit = float(os.environ.get("VERIF_MAX_WALL", 3600 if a.tier == "quick" else 6 * 3600))
+
+    def _stuck():
+        faulthandler.dump_traceback(all_threads=True)
+        REPL = common.REPLAYS
+        REPL.mkdir(parents=True, exist_ok=True)
+        path = REPL / f"{a.pid}_stuck_{a.tier}.json"
+        import json
+
+        path.write_text(json.dumps({"property": a.pid, "tier": a.tier, "seed": seed,
+                                    "failed": f"correspondence:harness (the check did not finish within {limit:.0f} s; thread stacks on stderr)"}))
+        print(f"VIOLATION property={a.pid} replay={path} no-failing-input-found", flush=True)
+        os._exit(1)
+
+    import threading
+
+    t = threading.Timer(limit, _stuck)
+    t.daemon = True
+    t.start()
     try:
         return mod.run(chk, replay=a.replay)
     except Exception:  # noqa: BLE001
